@@ -454,6 +454,18 @@ func (w *world) end(dead bool) {
 // waits opDeadline; after a few of them the shard stops (the trace recorded so far decides).
 const maxStuck = 3
 
+// bounded runs f and reports whether it returned within d.
+func bounded(d time.Duration, f func()) bool {
+	done := make(chan struct{})
+	go func() { f(); close(done) }()
+	select {
+	case <-done:
+		return true
+	case <-time.After(d):
+		return false
+	}
+}
+
 func runHist(b *binding, casesPath string, tr *vh.Trace, shard, shards int) {
 	n := 0
 	nStuck := 0
@@ -471,7 +483,15 @@ func runHist(b *binding, casesPath string, tr *vh.Trace, shard, shards int) {
 		dead := false
 		for _, o := range c.Ops {
 			e := vh.Ev{"ev": "op"}
-			if !w.apply(o, e) {
+			feasible := true
+			returned := bounded(3*opDeadline, func() { feasible = w.apply(o, e) })
+			if !returned {
+				// a call into the pool / stream never came back (the abandoned goroutine keeps its own event)
+				e = vh.Ev{"ev": "op", "op": o.Op, "res": "stuck", "blocked": true}
+				if o.C != 0 {
+					e["c"] = o.C
+				}
+			} else if !feasible {
 				break
 			}
 			dead = e["res"] == "deadlock" || e["res"] == "stuck"
@@ -571,6 +591,48 @@ func runStress(b *binding, tr *vh.Trace, rounds, workers int, seed int64) {
 				}
 			}
 		}()
+		var oneRequest func(lr *rand.Rand)
+		oneRequest = func(lr *rand.Rand) {
+			for once := true; once; once = false {
+				ctx := newCtx()
+				rc := &receiver{done: make(chan struct{})}
+				_, sender, reason := w.pool.NewStream(ctx, rc)
+				if reason != "" || sender == nil {
+					atomic.AddInt64(&nRefused, 1)
+					runtime.Gosched()
+					continue
+				}
+				var conn *xc09.Conn
+				if v, err := variable.Get(ctx, types.VariableUpstreamConnectionID); err == nil {
+					if id, ok := v.(uint64); ok {
+						conn = w.reg.ByMosnID(id)
+					}
+				}
+				if conn == nil {
+					continue
+				}
+				if how, bad := condemned.Load(conn.N); bad {
+					atomic.AddInt64(&dirtyLease, 1)
+					dirtyMu.Lock()
+					dirtyHow = append(dirtyHow, fmt.Sprintf("%s:open=%v", howName[how.(int)], conn.Open()))
+					dirtyMu.Unlock()
+				}
+				lst := &listener{destroyed: make(chan struct{})}
+				sender.GetStream().AddEventListener(lst)
+				w.mu.Lock()
+				w.all = append(w.all, &lease{conn: conn, sender: sender, recv: rc, lst: lst})
+				w.mu.Unlock()
+				jobs.Store(conn.LocalAddr().String(), &job{how: pickHow(lr), lst: lst, rc: rc, send: sender, conn: conn})
+				sender.AppendHeaders(ctx, b.request(), true)
+				select {
+				case <-lst.destroyed:
+					atomic.AddInt64(&nOK, 1)
+				case <-time.After(opDeadline):
+					atomic.AddInt64(&nStuck, 1)
+					sender.GetStream().ResetStream(types.StreamLocalReset)
+				}
+			}
+		}
 		seeds := make([]int64, workers)
 		for i := range seeds {
 			seeds[i] = rng.Int63()
@@ -581,42 +643,9 @@ func runStress(b *binding, tr *vh.Trace, rounds, workers int, seed int64) {
 				defer wg.Done()
 				lr := rand.New(rand.NewSource(sd))
 				for k := 0; k < 25 && atomic.LoadInt64(&nStuck) < 2; k++ {
-					ctx := newCtx()
-					rc := &receiver{done: make(chan struct{})}
-					_, sender, reason := w.pool.NewStream(ctx, rc)
-					if reason != "" || sender == nil {
-						atomic.AddInt64(&nRefused, 1)
-						runtime.Gosched()
-						continue
-					}
-					var conn *xc09.Conn
-					if v, err := variable.Get(ctx, types.VariableUpstreamConnectionID); err == nil {
-						if id, ok := v.(uint64); ok {
-							conn = w.reg.ByMosnID(id)
-						}
-					}
-					if conn == nil {
-						continue
-					}
-					if how, bad := condemned.Load(conn.N); bad {
-						atomic.AddInt64(&dirtyLease, 1)
-						dirtyMu.Lock()
-						dirtyHow = append(dirtyHow, fmt.Sprintf("%s:open=%v", howName[how.(int)], conn.Open()))
-						dirtyMu.Unlock()
-					}
-					lst := &listener{destroyed: make(chan struct{})}
-					sender.GetStream().AddEventListener(lst)
-					w.mu.Lock()
-					w.all = append(w.all, &lease{conn: conn, sender: sender, recv: rc, lst: lst})
-					w.mu.Unlock()
-					jobs.Store(conn.LocalAddr().String(), &job{how: pickHow(lr), lst: lst, rc: rc, send: sender, conn: conn})
-					sender.AppendHeaders(ctx, b.request(), true)
-					select {
-					case <-lst.destroyed:
-						atomic.AddInt64(&nOK, 1)
-					case <-time.After(opDeadline):
+					if !bounded(3*opDeadline, func() { oneRequest(lr) }) {
 						atomic.AddInt64(&nStuck, 1)
-						sender.GetStream().ResetStream(types.StreamLocalReset)
+						return
 					}
 				}
 			}(seeds[i])
